@@ -16,6 +16,7 @@ RULE = ("Hypothesis draws TT specs of all value families (incl. rank_deficient, 
         "in-place settings of the single-step variants, are enumerated (counted as inner evaluations), plus illegal pivots; the pivot / core number is passed as a Python int or as a NumPy "
         "integer scalar / 0-d integer array (int64, int32, uint8, intp), which the unmodified routines accept. Oracle: dense "
         "preservation, Gram defects of the unfoldings, norm concentration in the pivot core, rank caps, aliasing contract. "
+        "History: orthogonalize, update two cores in place (same array objects), orthogonalize again with the same arguments. "
         "Non-trivial = a rank actually changed, or some rank >= 2 with an interior pivot; distinct by SHA-1 of the case (+ pivot).")
 TOLERANCES = ("||dense(Z)*2^p - dense(Y)||_F <= 64(d+sum r+max n) eps prod_k||G_k||_F (normwise QR backward error); Gram defect <= 64 eps r n; "
               "| ||Z[k]||_F 2^p - ||Y|| | <= same normwise bound; stabilised entries <= 2, pivot max modulus in [1,2)")
@@ -44,7 +45,7 @@ def cases(draw, tier):
     kw = dict(d_max=6, size_max=4096, r_max=6) if tier == "quick" else dict(d_max=8, size_max=2 ** 15, r_max=8)
     spec = draw(gen.tt_specs(int_storage=True, **kw))
     # how the caller spells the pivot / core number: a Python int or what NumPy code produces (np.arange, argmax, rng.integers)
-    case = {"Y": spec, "kspell": draw(st.sampled_from(["int", "int", "int64", "int32", "uint8", "intp", "arr0"]))}
+    case = {"Y": spec, "hist": [draw(st.integers(0, 7)), draw(st.integers(0, 7)), draw(st.booleans()), draw(st.sampled_from([-2.5, 0.5, 3.0, -1.0]))], "kspell": draw(st.sampled_from(["int", "int", "int64", "int32", "uint8", "intp", "arr0"]))}
     if draw(st.integers(0, 2)) == 0:
         # extreme scales: core k is multiplied by 2**shift[k]; single cores stay representable, products do not
         lim = 400 if tier == "quick" else 480
@@ -167,6 +168,19 @@ def prop_orth(case, ctx):
         if case.get("kspell", "int") not in ("int", "uint8") or bad >= 0:
             ctx.raises(ValueError, teneva.orthogonalize, YL, sp(bad))
     unchanged(ctx, YL, snap, "orthogonalize(invalid pivot)")
+    # history: the caller keeps the list and the core arrays, updates one core IN PLACE (same objects) and orthogonalises again
+    # with the same arguments: the second result must belong to the updated tensor
+    hk, hj, hstab, hc = case.get("hist", [0, 0, False, -2.5])
+    hk, hj = hk % d, hj % d
+    Yh = [G.copy() for G in Y]
+    ctx.lib(teneva.orthogonalize, Yh, hk, hstab)
+    Yh[hj] *= hc
+    Yh[(hj + 1) % d][0, 0, 0] += 1.0
+    res = ctx.lib(teneva.orthogonalize, Yh, hk, hstab)
+    Zh, ph = res if hstab else (res, 0)
+    Fh = dense(Yh)
+    check_orth(ctx, Yh, Fh, Zh, ph, hk, hstab, tolF(Yh), fro(Fh))
+    ctx.inner(1, nontrivial_key=f"hist{hk}.{hj}.{int(hstab)}")
     if changed_any:
         ctx.label("rank_changed")
     ctx.nontrivial(changed_any or max(spec["r"]) >= 2)
